@@ -16,7 +16,7 @@ INPUT2 = ["zz", "ab q", "qa b", "a"]
 MORE = ["more a", "b more", "ab"]
 EVENTS = ["put(a)", "put(b)", "backward-delete-char", "clear-query", "change-query(a b)", "toggle-sort", "exclude", "up",
           "change-nth(2)", "change-nth(1)", "RELOAD2", "RELOAD1", "RELOADSYNC2", "backward-delete-char+put(c)", "put(a)+put(b)",
-          "beginning-of-line+forward-char+backward-delete-char+put(b)", "STDIN-MORE", "STDIN-EOF", "HOLD", "RELEASE"]
+          "beginning-of-line+forward-char+backward-delete-char+put(b)", "STDIN-MORE", "STDIN-EOF", "HOLD", "RELEASE", "RELOAD-2BATCH-SAMECOUNT"]
 
 
 def oracle(lines, query, sort, nth, excluded):
@@ -81,6 +81,16 @@ def run_seq(job):
                     apply_pending()
                 else:
                     continue
+            elif ev == "RELOAD-2BATCH-SAMECOUNT":
+                # a reload whose input arrives in two batches and ends with exactly as many lines as are loaded now
+                nreload += 1
+                n = max(2, len(lines))
+                new = ["s%d-%d %s" % (nreload, i, "ab"[i % 2]) for i in range(n - 1)] + ["rl%d a" % nreload]
+                k = max(1, n // 2)
+                s.post("reload(printf '%%s\\n' %s; sleep 0.3; printf '%%s\\n' %s)" % (" ".join("'%s'" % l for l in new[:k]), " ".join("'%s'" % l for l in new[k:])))
+                pending_reload = new
+                if not (stdin_open and from_stdin):
+                    apply_pending()
             elif ev.startswith("RELOAD"):
                 which = f2 if ev.endswith("2") else f1
                 # a per-reload marker line makes "the reload has landed" observable even when the content repeats
